@@ -357,6 +357,7 @@ func suiteWsRelay(e *vh.Env) {
 		bc.Close()
 		be.srv.Close()
 	}
+	wsBurstThenClose(e, n)
 }
 
 func kindName(m wsMsg) string {
